@@ -259,10 +259,11 @@ package client
 //@   opt nomonitor = 1
 //@   opt partial = 1
 //@   requires c != nil && m != nil && typeis(aval(c.nextMessageID), uint64) && typeis(aval(c.accepted), bool)
-//@   ensures tx_match: [C17] typeis(m.Payload, *Tx) && as(m.Payload, *Tx).ID == old(nextID(c)) ==> nextID(c) == uint64(old(nextID(c)) + 1)
+//@   ensures tx_match: [C17] old(bval(aval(c.accepted))) && typeis(m.Payload, *Tx) && as(m.Payload, *Tx).ID == old(nextID(c)) ==> nextID(c) == uint64(old(nextID(c)) + 1)
 //@   ensures tx_skip: [C17] typeis(m.Payload, *Tx) && as(m.Payload, *Tx).ID != old(nextID(c)) ==> nextID(c) == old(nextID(c))
-//@   ensures update_match: [C17] typeis(m.Payload, *TxUpdate) && as(m.Payload, *TxUpdate).ID == old(nextID(c)) ==> nextID(c) == uint64(old(nextID(c)) + 1)
+//@   ensures update_match: [C17] old(bval(aval(c.accepted))) && typeis(m.Payload, *TxUpdate) && as(m.Payload, *TxUpdate).ID == old(nextID(c)) ==> nextID(c) == uint64(old(nextID(c)) + 1)
 //@   ensures update_skip: [C17] typeis(m.Payload, *TxUpdate) && as(m.Payload, *TxUpdate).ID != old(nextID(c)) ==> nextID(c) == old(nextID(c))
+//@   ensures unaccepted_keeps_id: [C17] !old(bval(aval(c.accepted))) && !typeis(m.Payload, *AcceptRegister) ==> aval(c.nextMessageID) == old(aval(c.nextMessageID))
 //@   ensures others_keep_id: [C17] !typeis(m.Payload, *Tx) && !typeis(m.Payload, *TxUpdate) ==> aval(c.nextMessageID) == old(aval(c.nextMessageID))
 //@   assert offer_gate at call addHandlerMessage : [C17] (typeis(m.Payload, *Tx) ==> as(m.Payload, *Tx).ID == old(nextID(c)) && nextID(c) == uint64(old(nextID(c)) + 1))
 //@        && (typeis(m.Payload, *TxUpdate) ==> as(m.Payload, *TxUpdate).ID == old(nextID(c)) && nextID(c) == uint64(old(nextID(c)) + 1))
